@@ -184,6 +184,13 @@ func (o *waterRunObserver) probes() *hermes.VerifProbes {
 			}
 			o.pending = captureWaterIn(g, w, false, wdt)
 		},
+		AfterNitro: func(g *hermes.GlobalVarsMain, w *hermes.WaterSharedVars, n *hermes.NitroSharedVars, zeit, subd int, wdt, steps float64) {
+			// nmove rewrites Q1[0] = FLUSS0*wdt (nitro.go:741) after every Water call: the stale value the next Water call
+			// meets in its zero-flux branch is the one left here (matters only for a surface flux of exactly ±0)
+			if o.pending != nil {
+				o.pending.Q0prev = g.Q1[0]
+			}
+		},
 		DayEnd: func(g *hermes.GlobalVarsMain, w *hermes.WaterSharedVars, n *hermes.NitroSharedVars, cs *hermes.CropSharedVars, zeit int) {
 			sEnd := profileStorage(g, 1)
 			// the sub-steps cover the whole day: nothing of the day's fluxes is dropped or applied twice
